@@ -139,7 +139,20 @@ COOMatrix* COOMatrix::transpose()
 
 BCOOMatrix* BCOOMatrix::transpose()
 {
-    BCOOMatrix* T = new BCOOMatrix(b_rows, b_cols, n_rows, n_cols, idx2, idx1, block_vals);
+    // Block (I, J) of A is block (J, I) of A^T, holding the transposed (b_cols x b_rows) block
+    BCOOMatrix* T = new BCOOMatrix(n_cols, n_rows, b_cols, b_rows);
+    std::vector<double> block(b_size);
+    for (int i = 0; i < nnz; i++)
+    {
+        for (int row = 0; row < b_rows; row++)
+        {
+            for (int col = 0; col < b_cols; col++)
+            {
+                block[col * b_rows + row] = block_vals[i][row * b_cols + col];
+            }
+        }
+        T->add_value(idx2[i], idx1[i], block.data());
+    }
     return T;
 }
 
@@ -153,9 +166,11 @@ CSRMatrix* CSRMatrix::transpose()
 
 BSRMatrix* BSRMatrix::transpose()
 {
-    BSCMatrix* T_bsc = new BSCMatrix(b_rows, b_cols, n_rows, n_cols, idx1, idx2, block_vals);
-    BSRMatrix* T = (BSRMatrix*) T_bsc->to_CSR();
-    delete T_bsc;
+    BCOOMatrix* A_bcoo = (BCOOMatrix*) to_BCOO();
+    BCOOMatrix* T_bcoo = A_bcoo->transpose();
+    BSRMatrix* T = (BSRMatrix*) T_bcoo->to_BSR();
+    delete A_bcoo;
+    delete T_bcoo;
     return T;
 }
 
@@ -168,9 +183,11 @@ CSCMatrix* CSCMatrix::transpose()
 }
 BSCMatrix* BSCMatrix::transpose()
 {
-    BSRMatrix* T_bsr = new BSRMatrix(b_rows, b_cols, n_rows, n_cols, idx1, idx2, block_vals); 
-    BSCMatrix* T = (BSCMatrix*) T_bsr->to_CSC();
-    delete T_bsr;
+    BCOOMatrix* A_bcoo = (BCOOMatrix*) to_BCOO();
+    BCOOMatrix* T_bcoo = A_bcoo->transpose();
+    BSCMatrix* T = (BSCMatrix*) T_bcoo->to_BSC();
+    delete A_bcoo;
+    delete T_bcoo;
     return T;
 }
 
